@@ -16,12 +16,12 @@ contract('Store.__init__', real=S + '__init__', inline=True,
 
 contract('Store.put', real=S + 'put',
          params={'self': 'obj:Store', 'arg0': 'int', 'arg1': 'int', 'cmd': 'bytes', 'data': 'bytes'},
-         props=['C19', 'C06'],
+         props=['C19', 'C06', 'C01'],
          modifies=['self._dict'],
-         ensures=[('C19,C06', 'append-at-tail',
+         ensures=[('C19,C06,C01', 'append-at-tail',
                    'implies(cmd != CLSE or present(old(self), arg0, arg1), '
                    'present(self, arg0, arg1) and qeq(view(self, arg0, arg1), qcat(view(old(self), arg0, arg1), pkt(cmd, data))))'),
-                  ('C19,C06', 'other-keys-untouched', 'others_unchanged(old(self), self, arg0, arg1)'),
+                  ('C19,C06,C01', 'other-keys-untouched', 'others_unchanged(old(self), self, arg0, arg1)'),
                   # C06 (routing invariant): a packet parked for a stream must not be lost.  Left unspecified under C19.
                   ('C06', 'close-for-absent-key-is-kept',
                    'implies(cmd == CLSE and not present(old(self), arg0, arg1), '
@@ -34,9 +34,9 @@ contract('Store.put', real=S + 'put',
 contract('Store.find', real=S + 'find',
          params={'self': 'obj:Store', 'arg0': 'opt[int]', 'arg1': 'opt[int]'},
          returns='opt[tuple[int,int]]',
-         props=['C19', 'C06'], pure=True,
-         ensures=[('C19,C06', 'none-iff-no-match', 'iff(isnone(result), not exists_pending(self, arg0, arg1))'),
-                  ('C19,C06', 'result-matches-and-pending',
+         props=['C19', 'C06', 'C01'], pure=True,
+         ensures=[('C19,C06,C01', 'none-iff-no-match', 'iff(isnone(result), not exists_pending(self, arg0, arg1))'),
+                  ('C19,C06,C01', 'result-matches-and-pending',
                    'implies(not isnone(result), matches_pat(val(result)[0], val(result)[1], arg0, arg1) '
                    'and pending(self, val(result)[0], val(result)[1]))')],
          doc='wildcard lookup (None = unknown id): a pair that currently has a pending packet whenever one matching pair exists')
@@ -44,11 +44,11 @@ contract('Store.find', real=S + 'find',
 contract('Store.find_allow_zeros', real=S + 'find_allow_zeros',
          params={'self': 'obj:Store', 'arg0': 'opt[int]', 'arg1': 'opt[int]'},
          returns='opt[tuple[int,int]]',
-         props=['C19', 'C06'], pure=True,
-         ensures=[('C19,C06', 'none-iff-no-match-incl-zero-fallbacks',
+         props=['C19', 'C06', 'C01'], pure=True,
+         ensures=[('C19,C06,C01', 'none-iff-no-match-incl-zero-fallbacks',
                    'iff(isnone(result), not (exists_pending(self, arg0, arg1) or exists_pending(self, arg0, 0) '
                    'or exists_pending(self, 0, arg1) or exists_pending(self, 0, 0)))'),
-                  ('C19,C06', 'result-matches-with-zero-fallback-and-pending',
+                  ('C19,C06,C01', 'result-matches-with-zero-fallback-and-pending',
                    'implies(not isnone(result), pending(self, val(result)[0], val(result)[1]) and '
                    '(matches_pat(val(result)[0], val(result)[1], arg0, arg1) or matches_pat(val(result)[0], val(result)[1], arg0, 0) '
                    'or matches_pat(val(result)[0], val(result)[1], 0, arg1) or matches_pat(val(result)[0], val(result)[1], 0, 0)))')],
@@ -57,23 +57,23 @@ contract('Store.find_allow_zeros', real=S + 'find_allow_zeros',
 contract('Store.get', real=S + 'get',
          params={'self': 'obj:Store', 'arg0': 'opt[int]', 'arg1': 'opt[int]'},
          returns='tuple[bytes,int,int,bytes]',
-         props=['C19', 'C06'],
+         props=['C19', 'C06', 'C01'],
          requires=['exists_pending(self, arg0, arg1)'],
          modifies=['self._dict'],
-         ensures=[('C19,C06', 'resolved-key-matches', 'matches_pat(result[1], result[2], arg0, arg1) and pending(old(self), result[1], result[2])'),
-                  ('C19,C06', 'head-of-queue', 'result[0] == qhead_cmd(view(old(self), result[1], result[2])) and '
+         ensures=[('C19,C06,C01', 'resolved-key-matches', 'matches_pat(result[1], result[2], arg0, arg1) and pending(old(self), result[1], result[2])'),
+                  ('C19,C06,C01', 'head-of-queue', 'result[0] == qhead_cmd(view(old(self), result[1], result[2])) and '
                                                'result[3] == qhead_data(view(old(self), result[1], result[2]))'),
-                  ('C19,C06', 'pop-or-forget',
+                  ('C19,C06,C01', 'pop-or-forget',
                    'ite(result[0] == CLSE, not present(self, result[1], result[2]), '
                    'present(self, result[1], result[2]) and qeq(view(self, result[1], result[2]), qtail(view(old(self), result[1], result[2]))))'),
-                  ('C19,C06', 'other-keys-untouched', 'others_unchanged(old(self), self, result[1], result[2])')],
+                  ('C19,C06,C01', 'other-keys-untouched', 'others_unchanged(old(self), self, result[1], result[2])')],
          doc='pops the head of the resolved pair; retrieving a CLOSE forgets the stream')
 
 contract('Store.clear', real=S + 'clear',
          params={'self': 'obj:Store', 'arg0': 'int', 'arg1': 'int'},
-         props=['C19', 'C06'], modifies=['self._dict'],
-         ensures=[('C19,C06', 'forgets-the-pair', 'not present(self, arg0, arg1)'),
-                  ('C19,C06', 'other-keys-untouched', 'others_unchanged(old(self), self, arg0, arg1)')])
+         props=['C19', 'C06', 'C01'], modifies=['self._dict'],
+         ensures=[('C19,C06,C01', 'forgets-the-pair', 'not present(self, arg0, arg1)'),
+                  ('C19,C06,C01', 'other-keys-untouched', 'others_unchanged(old(self), self, arg0, arg1)')])
 
 contract('Store.clear_all', real=S + 'clear_all',
          params={'self': 'obj:Store'},
@@ -94,7 +94,7 @@ MATCH = ('(arg1 == val(self.local_id) or (allow_zeros and arg1 == 0)) and '
 
 contract('AdbInfo.args_match', real='hidden_helpers:_AdbTransactionInfo.args_match',
          params={'self': 'obj:AdbInfo', 'arg0': 'int', 'arg1': 'int', 'allow_zeros': 'bool'},
-         returns='bool', props=['C19', 'C06'], pure=True,
+         returns='bool', props=['C19', 'C06', 'C01'], pure=True,
          requires=['not isnone(self.local_id)'],
-         ensures=[('C19,C06', 'stream-matching-predicate', 'result == (%s)' % MATCH)],
+         ensures=[('C19,C06,C01', 'stream-matching-predicate', 'result == (%s)' % MATCH)],
          doc='the stream-matching predicate as the property states it (own local id, announced remote id or not yet known, zero fallbacks)')
